@@ -22,6 +22,14 @@ pub fn scenario(tier: &str) -> DistScn {
     });
     // fees on the scale of an 18-decimals distribution asset: one epoch's inflow exceeds 2^64 base units
     roots.push(DRoot { label: "grace2/growth0/1epoch+inflow-above-2^64".into(), grace: 2, growth_rate: Decimal::zero(), pre_epochs: 1, then: vec![DAct::BigInflow] });
+    // an epoch clock that does not start on a whole second: every block of this root lies 300 ms before an epoch boundary
+    roots.push(DRoot {
+        label: "grace2/growth0/genesis+0.3s/2epochs".into(),
+        grace: 2,
+        growth_rate: Decimal::zero(),
+        pre_epochs: 0,
+        then: vec![DAct::Epoch, DAct::Bond { user: ALICE.into(), amount: 1000 }, DAct::Inflow { amount: 1_000_000 }, DAct::Epoch, DAct::Inflow { amount: 1_000_000 }],
+    });
     if tier != "quick" {
         roots.push(DRoot { label: "grace3/growth0/3epochs".into(), grace: 3, growth_rate: Decimal::zero(), pre_epochs: 3, then: vec![] });
         roots.push(DRoot { label: "grace1/growth1/1epoch".into(), grace: 1, growth_rate: Decimal::one(), pre_epochs: 1, then: vec![] });
